@@ -189,7 +189,11 @@ def run_more(ctx):
                         var = R.get_sympy_var()
                         expr = R.get_sympy_dom(*var, sheet=2 ** len(ml) - 1)
                         numv = [float(np.asarray(x)) for x in R.get_num_var()]
-                        pts = mm[mm > max(a_ + b_ for a_, b_ in ml)][::6] if not opts.get("cut_phsp") else mm[::5]
+                        # above every channel threshold: below one the numeric shape with cut_phsp is not analytic, while the symbolic
+                        # denominator is the analytic continuation that pole searches evaluate at complex masses
+                        pts = mm[mm > max(a_ + b_ for a_, b_ in ml)][::6]
+                        if len(pts) == 0:
+                            raise NotImplementedError
                         vals = np.array([complex(sym.N(expr.subs(dict(zip(var[1:], numv))).subs({var[0]: float(x)}), 30)) for x in pts])
                         want = 1 / np.asarray(R(T(pts)))
                         dvs = cdev(vals, want)
